@@ -118,6 +118,12 @@ def run_shard(ctx):
     # scripts that yield no entity at all: the grouped result must still be the dict with the mandatory buckets
     EMPTY = ["", "\n", "USE warehouse;\n", "USE db;\nGO\nINSERT INTO t VALUES (1);\nGRANT ALL ON t TO joe;\n", "CREATE VIEW v AS SELECT 1;\n", "-- only a comment\n",
              "/* block */\n", "SELECT 1;\nDELETE FROM t;\n", "DROP VIEW v;\n"]
+    # ALTER / CREATE INDEX on a table the script does not define (raises on the pinned tree - flat and grouped alike - and is then skipped;
+    # if it ever returns, the flat result must still regroup losslessly), and the very same IF NOT EXISTS statement written twice
+    EMPTY += ["CREATE TABLE a (x int);\nALTER TABLE nowhere ADD c int;\n", "CREATE TABLE a (x int);\nCREATE INDEX i ON s.nowhere (x);\n",
+              "CREATE SEQUENCE q1;\nALTER TABLE t2 ADD CONSTRAINT fk FOREIGN KEY (a) REFERENCES p (k);\nCREATE TABLE z (y int);\n",
+              "CREATE SCHEMA IF NOT EXISTS sc1;\nCREATE SCHEMA IF NOT EXISTS sc1;\nCREATE TABLE IF NOT EXISTS t (a int);\nCREATE TABLE IF NOT EXISTS t (a int);\nCREATE SCHEMA sc2;\n",
+              "CREATE TABLE IF NOT EXISTS s.t (a int, b int);\nCREATE TABLE IF NOT EXISTS s.t (a int, b int);\n", "CREATE SEQUENCE q START 1;\nCREATE SEQUENCE q START 1;\nCREATE DATABASE d;\nCREATE DATABASE d;\n"]
     for q, ddl in enumerate(EMPTY):
         for mode in MODES:
             i += 1
